@@ -433,6 +433,15 @@ func (p *Proxy) handleConnectRequest(ctx *Context, req *http.Request, session *S
 			log.Errorf("martian: failed to copy CONNECT tunnel: %v", err)
 		}
 
+		// This direction is finished: pass the end-of-stream on, so that the
+		// peer sees it now and the opposite copy can end, rather than both
+		// waiting for the idle timeout.
+		if cw, ok := w.(interface{ CloseWrite() error }); ok {
+			cw.CloseWrite()
+		} else if c, ok := w.(io.Closer); ok {
+			c.Close()
+		}
+
 		log.Debugf("martian: CONNECT tunnel finished copying")
 		donec <- true
 	}
